@@ -1,7 +1,9 @@
 #!/bin/bash
-# tools/trymutant.sh <seeded dir> <prop>...  : apply patch to /repo, run quick checks, undo
+# tools/trymutant.sh <seeded dir> <prop>...  : apply the patch in a scratch worktree of /repo (never in
+# /repo itself), run the quick checks against it (VERIF_REPO), remove the worktree.
 d=$1; shift
-cd /repo && git apply --3way "$d/patch.diff" 2>/dev/null || git apply "$d/patch.diff" || { echo "patch does not apply"; git checkout -- . ; exit 3; }
-git -C /repo diff --stat | tail -1
-for p in "$@"; do (cd /verif && bin/check $p quick 2>&1 | grep -E "VIOLATION|KNOWN|quick seed|failure" | cut -c1-220); done
-cd /repo && git reset -q --hard HEAD && git status --short | head -3
+wt=/tmp/seed/try-$$
+git -C /repo worktree add -q --detach $wt HEAD || exit 9
+(cd $wt && git apply "$d/patch.diff") || { echo "patch does not apply"; git -C /repo worktree remove --force $wt; exit 3; }
+for p in "$@"; do (cd /verif && VERIF_REPO=$wt VERIF_EVIDENCE_DIR=/var/tmp/mutant-evidence bin/check $p quick 2>&1 | grep -E "VIOLATION|KNOWN|quick seed|failure" | cut -c1-220); done
+git -C /repo worktree remove --force $wt
